@@ -208,7 +208,20 @@ fn run_case_inner(rec: &mut Rec, d: &Value) {
                     }
                 }
             }
-            rec.ev("edge", json!({ "items": items, "pairs": pairs }));
+            // corners i32::MAX (and a little less) apart: extents of 2^31 - 3 .. 2^31 pixels
+            let mut far = vec![];
+            for (p, q) in [((-1000, 3), (i32::MAX - 1000, 9)), ((i32::MIN + 5, -4), (4, 2)), ((7, i32::MAX - 2), (9, -2)), ((-1, -1), (i32::MAX - 1, i32::MAX - 2)),
+                           ((i32::MAX - 1000, 9), (-1000, 3)), ((0, 0), (i32::MAX - 3, 5)), ((i32::MIN, i32::MIN), (-1, -2))] {
+                let (p, q) = (Point::new(p.0, p.1), Point::new(q.0, q.1));
+                match catch(|| Rectangle::with_corners(p, q)) {
+                    Ok(r) => {
+                        let code = |s: u32| if s <= i32::MAX as u32 { json!([0, s]) } else { json!([1, s as i64 - i32::MAX as i64]) };
+                        far.push(json!([pt_json(p), pt_json(q), pt_json(r.top_left), [code(r.size.width), code(r.size.height)], 0]))
+                    }
+                    Err(_) => far.push(json!([pt_json(p), pt_json(q), [0, 0], [[0, 0], [0, 0]], 1])),
+                }
+            }
+            rec.ev("edge", json!({ "items": items, "pairs": pairs, "far": far }));
             rec.nontrivial();
         }
         "un" => {
